@@ -13,7 +13,7 @@ CHEAP="C05 C09 C11 C12 C13 C15 C17"
 cd "$REPO" || exit 2
 for P in "$VDIR"/seeded/*/patch.diff "$VDIR"/mutants/*.diff; do
   NAME=$(basename "$(dirname "$P")"); [ "$NAME" = mutants ] && NAME=$(basename "$P" .diff)
-  git -C "$REPO" checkout -q -- . 2>/dev/null
+  git -C "$REPO" checkout -q -- . 2>/dev/null; git -C "$REPO" clean -qfd src 2>/dev/null
   if ! git -C "$REPO" apply "$P" 2>/dev/null; then echo "{\"seed\":\"$NAME\",\"error\":\"patch does not apply\"}" >> "$OUT"; continue; fi
   LINE="{\"seed\":\"$NAME\""
   OWN=$(echo "$NAME" | grep -oE '^C[0-9]+' || true)
@@ -27,6 +27,6 @@ for P in "$VDIR"/seeded/*/patch.diff "$VDIR"/mutants/*.diff; do
     LINE="$LINE,\"$PR\":{\"exit\":$RC,\"violations\":$NV}"
   done
   echo "$LINE}" >> "$OUT"
-  git -C "$REPO" checkout -q -- .
+  git -C "$REPO" checkout -q -- . ; git -C "$REPO" clean -qfd src
 done
 echo done
